@@ -35,7 +35,7 @@ def cases(tier, seed):
         ds = data.dataset(dsn, seed) if dsn == 'R' else data.dataset(dsn)
         for name in zoo.ALL:
             for lab, o in zoo.option_configs(name, ds, tier):
-                for hist in ('first', 'refit'):
+                for hist in (('first', 'refit', 'renamed_labels') if (zoo.KIND[name] == 'class' and 'n_components=1' not in lab) else ('first', 'refit')):
                     out.append(('%s/%s/%s/%s' % (name, lab, dsn, hist), (name, lab, o, dsn, seed, hist)))
     return out
 
@@ -62,7 +62,7 @@ def run_case(spec):
     with warnings.catch_warnings(record=True) as w:
         warnings.simplefilter('always')
         try:
-            if hist == 'first':
+            if hist in ('first', 'renamed_labels'):
                 est = zoo.make(name, ds, **over)
             else:
                 other = data.dataset('S2' if d != 2 else 'S3')
@@ -73,7 +73,10 @@ def run_case(spec):
                 if 'n_components' in est.get_params() and 'n_components' not in p:
                     p['n_components'] = None
                 est.set_params(**p)
-            r = est.fit(*zoo.train_args(name, ds))
+            targs = zoo.train_args(name, ds)
+            if hist == 'renamed_labels':           # class NAMES that are neither contiguous nor ordered
+                targs = (targs[0], np.array([7, 3, 12, 5])[np.asarray(targs[1])])
+            r = est.fit(*targs)
         except Exception as e:
             return dict(evals=1, sigs=[], viol=[V(site, 'fit_raises', 'fit raised %s: %s' % (type(e).__name__, str(e)[:200]), tr)],
                         sample=None)
